@@ -295,6 +295,8 @@ def run(ctx):
     # equal UUIDs in different IRs (outside World.v's guard): Model/TwinCache.v against two loads of one file
     import twinleg
     twinleg.run(ctx, g, ctx.rng, 40 if ctx.quick else 800, 25 if ctx.quick else 40, "twin-cache-model")
+    for _ in range(40 if ctx.quick else 800):
+        twinleg.modules_scenario(ctx, g, ctx.rng, 20 if ctx.quick else 40, "twin-cache-model")
     import loadedworld
     lh = loadedworld.stream(ctx, g, ctx.rng, 12 if ctx.quick else 300, 15 if ctx.quick else 30, "loaded", what={"cache", "forest"})
     ctx.cov["histories_continued_from_loaded_files"] = len(lh)
